@@ -24,12 +24,15 @@ SetShape(k, a, inst) == /\ kind' = k /\ fired' = fired + 1
                         /\ ar' = IF k = "sphere" /\ inst THEN <<"num", 1>> ELSE a
                         /\ finder' = FinderFor(ar') /\ UNCHANGED last
 SetAr(a) == ar' = a /\ finder' = FinderFor(a) /\ UNCHANGED <<kind, fired, last>>
+(* sf.description = <another description>: the public property setter replaces the description (callbacks fire) and leaves the aspect ratio alone *)
+SwapDescription(k) == kind' = k /\ fired' = fired + 1 /\ UNCHANGED <<ar, finder, last>>
 (* a query: the factor functions see the aspect ratio clipped at 1; a sphere ignores it altogether *)
 Eff(k, a) == IF k = "sphere" THEN <<"num", 1>> ELSE IF IsNum(a) /\ a[2] < 1 THEN <<"num", 1>> ELSE a
 Query == last' = [kind |-> kind, eff |-> Eff(kind, ar), finder |-> finder] /\ UNCHANGED <<kind, ar, finder, fired>>
 Next == /\ nops < MaxOps /\ nops' = nops + 1
         /\ \/ \E k \in Kinds, a \in Ars, i \in BOOLEAN : SetShape(k, a, i)
            \/ \E a \in Ars : SetAr(a)
+           \/ \E k \in Kinds : SwapDescription(k)
            \/ Query
 Spec == Init /\ [][Next]_vars
 FinderMatches == finder = FinderFor(ar)
